@@ -1,7 +1,7 @@
 (* C06 — signature verification accepts exactly valid, ordered, in-set signatures.  For EVERY recovery function. *)
 From Coq Require Import List ZArith Lia Bool Arith.
 From Coq Require Import Strings.Byte.
-From WH Require Import lib.Bytes gen.Extracted model.Vaa proofs.VaaProofs.
+From WH Require Import lib.Bytes gen.Extracted model.Vaa proofs.VaaProofs gen.ExtractedVaaCodec.
 Import ListNotations.
 Open Scope Z_scope.
 
@@ -54,9 +54,37 @@ Example C06_example :
   verify_sigs ex_recover (fun b => b) (ex_v [(0, x0a); (2, x0a)]) [[x0a]; [x0b]; [x0a]] = false.
 Proof. vm_compute. repeat split; reflexivity. Qed.
 
+(* ---------------------------------------------------------------- the model IS the source (translator tie)
+   gen/x_vaacodec.py translates VAA.VerifySignatures statement by statement (guards in source order, the values of last_index and
+   signing_addresses at each point; an indexing of `addresses` without the preceding bounds test is refused as a panic) into
+   go_verify_loop / go_verify_sigs on every run; the function the theorems above characterise is that translation. *)
+Lemma go_verify_loop_is_model : forall recover h addrs ss last seen,
+  go_verify_loop recover h addrs last seen ss = verify_loop recover h addrs last seen ss.
+Proof.
+  intros recover h addrs ss. induction ss as [|s t IH]; intros last seen; cbn [go_verify_loop verify_loop]; [reflexivity|].
+  destruct (Z.of_nat (length addrs) <=? s_idx s); [reflexivity|]. destruct (s_idx s <=? last); [reflexivity|].
+  destruct (recover h (s_data s)) as [a|]; [|reflexivity]. destruct (nth_error addrs (Z.to_nat (s_idx s))) as [a'|]; [|reflexivity].
+  destruct (negb (bytes_eqb a a')); [reflexivity|]. destruct (existsb (bytes_eqb a) seen); [reflexivity|]. apply IH.
+Qed.
+
+Theorem C06_verification_follows_source : forall recover keccak v addrs,
+  go_verify_sigs recover keccak v addrs = verify_sigs recover keccak v addrs.
+Proof. intros recover keccak v addrs. unfold go_verify_sigs, verify_sigs. rewrite go_verify_loop_is_model. reflexivity. Qed.
+
+(* hence the iff holds of the translated source text *)
+Theorem C06_source_iff : forall (recover : bytes -> bytes -> option bytes) (keccak : bytes -> bytes) v addrs,
+  go_verify_sigs recover keccak v addrs = true <->
+  ( increasing (-1) (map s_idx (sigs v)) /\
+    Forall (fun s => s_idx s < Z.of_nat (length addrs) /\
+                     exists a, recover (digest keccak v) (s_data s) = Some a /\ nth_error addrs (Z.to_nat (s_idx s)) = Some a) (sigs v) /\
+    NoDup (map (fun s => recover (digest keccak v) (s_data s)) (sigs v)) ).
+Proof. intros recover keccak v addrs. rewrite C06_verification_follows_source. apply C06_iff. Qed.
+
 Print Assumptions C06_iff.
 Print Assumptions C06_nodup_addresses.
 Print Assumptions C06_duplicate_rejected.
 Print Assumptions C06_sorted.
 Print Assumptions C06_signers_in_set.
 Print Assumptions C06_count_bounded.
+Print Assumptions C06_verification_follows_source.
+Print Assumptions C06_source_iff.
